@@ -47,12 +47,7 @@ var props = map[string]PropSpec{
 			{Name: "solver.VP_C02_pb_norm", Kind: "L", Params: map[string]int{"k": 4, "W": 1 << 20, "D": 1 << 22}, Bounds: "as quick", Require: []string{"norm"}},
 			{Name: "solver.VP_C02_pb_norm", Kind: "L", Params: map[string]int{"k": 3, "W": 15, "D": 63, "int": 0}, Bounds: "bit-vector printer cross-check, |coefficient| <= 15", Require: []string{"norm"}},
 			{Name: "solver.VP_C02_card_e2e", Kind: "E", Params: map[string]int{"n": 3, "m": 2, "k": 3}, Bounds: "n=3; <=2 cardinality constraints on <=3 distinct variables each", Require: []string{"sat", "unsat", "parse-unsat"}},
-			{Name: "solver.VP_C02_pb_e2e", Kind: "E", Params: map[string]int{"n": 3, "m": 2, "k": 3, "unitfirst": 1, "W": 2, "D": 4}, Bounds: "n=3; optional unit clause + one PB constraint on <=3 variables, coefficients [-2,2], degree [-4,4]", Require: []string{"sat", "unsat", "parse-unsat"}},
-			{Name: "solver.VP_C02_pb_e2e", Kind: "E", Params: map[string]int{"n": 3, "m": 2, "k": 2, "kother": 1, "W": 2, "D": 3}, Bounds: "n=3; two constraints of any kind, the first on one variable, the second on <=2", Require: []string{"sat", "parse-unsat"}},
-			{Name: "solver.VP_C02_pb_e2e", Kind: "E", Params: map[string]int{"n": 3, "m": 1, "k": 3, "W": 4, "D": 9}, Bounds: "n=3; one constraint, coefficients [-4,4], degree [-9,9]", Require: []string{"sat", "unsat", "parse-unsat"}},
 			{Name: "solver.VP_C02_card_units", Kind: "L", Params: map[string]int{"n": 4}, Bounds: "as quick with 4 variables", Require: []string{"units-lemma", "sat", "parse-unsat"}},
-			{Name: "solver.VP_C02_pb_units", Kind: "L", Params: map[string]int{"n": 3, "W": 4, "D": 13, "Wlo": -4}, Bounds: "as quick with coefficients in [-4,4], degree in [-1,13]", Require: []string{"units-lemma", "sat", "unsat", "parse-unsat"}},
-			{Name: "solver.VP_C02_pb_units", Kind: "L", Params: map[string]int{"n": 4, "W": 2, "D": 9}, Bounds: "4 variables, coefficients in [1,2]", Require: []string{"units-lemma", "sat", "unsat", "parse-unsat"}},
 			{Name: "solver.VP_C02_card_skeleton", Kind: "E", Params: map[string]int{"n6": 2}, Bounds: "cardinality skeletons over 5 and 6 variables", Require: []string{"sat"}},
 		},
 		Outside: "more than 3 variables end to end; more than two constraints; coefficients beyond the stated ranges end to end (the normalisation lemma covers 2^20)",
@@ -67,9 +62,7 @@ var props = map[string]PropSpec{
 			{Name: "solver.VP_C03_optim_skeleton", Kind: "E", Params: map[string]int{"maxsigns": 0, "W": 3}, Bounds: "3 clause skeletons over 5-6 variables, optional unit clause on any variable, cost over all variables with weights in [1,3] (solver-enumerated): several improvement rounds with weight-sorted bound constraints", Require: []string{"sat"}},
 		},
 		Thorough: []HarnessRun{
-			{Name: "solver.VP_C03_optim_cnf", Kind: "E", Params: map[string]int{"n": 3, "m": 2, "k": 2, "kc": 3, "W": 2}, Bounds: "n=3, <=2 clauses x <=2 literals, cost over <=3 variables, weights [0,2]", Require: []string{"sat", "unsat"}},
-			{Name: "solver.VP_C03_optim_cnf", Kind: "E", Params: map[string]int{"n": 2, "m": 3, "k": 2, "kc": 2, "W": 3}, Bounds: "n=2, <=3 clauses, weights [0,3]", Require: []string{"sat", "unsat"}},
-			{Name: "solver.VP_C03_optim_pb", Kind: "E", Params: map[string]int{"n": 3, "k": 3, "kc": 3, "W": 2, "PW": 2}, Bounds: "n=3; one PB constraint on <=3 variables; cost over <=3 variables", Require: []string{"sat", "unsat"}},
+			{Name: "solver.VP_C03_optim_skeleton", Kind: "E", Params: map[string]int{"maxsigns": 2, "W": 3}, Bounds: "the optimisation skeletons with 2 symbolic signs, cost weights in 1..3", Require: []string{"optimum"}},
 		},
 		Assumptions: []string{"cost literals only mention variables the problem declares (ParsePBConstrs cannot declare more); cost weights are non-negative (negative ones only arise through ParseOPB, see C13)"},
 		Outside:     "more than 3 variables; cost weights above 3; several PB constraints together with a cost function",
@@ -86,7 +79,6 @@ var props = map[string]PropSpec{
 		Thorough: []HarnessRun{
 			{Name: "solver.VP_C05_count_cnf", Kind: "E", Params: map[string]int{"n": 3, "m": 3, "k": 2}, Bounds: "n<=3, <=3 clauses x <=2 literals", Require: []string{"zero", "all", "some"}},
 			{Name: "solver.VP_C05_count_cnf", Kind: "E", Params: map[string]int{"n": 3, "m": 2, "k": 3}, Bounds: "n<=3, <=2 clauses x <=3 literals", Require: []string{"zero", "all", "some"}},
-			{Name: "solver.VP_C05_count_pb", Kind: "E", Params: map[string]int{"n": 3, "k": 3, "PW": 3}, Bounds: "as quick with w in [1,3]", Require: []string{"zero", "all", "some"}},
 			{Name: "solver.VP_C05_count_card", Kind: "E", Params: map[string]int{"n6": 2}, Bounds: "cardinality skeletons over 5 and 6 variables", Require: []string{"some"}},
 		},
 		Outside: "more than 3 variables; several PB constraints; enumeration with an unbuffered channel and a concurrent consumer (see C20)",
@@ -103,7 +95,6 @@ var props = map[string]PropSpec{
 			{Name: "solver.VP_C01_cnf_skeleton", Kind: "E", NoSample: true, Params: map[string]int{"big": 1, "bigfirst": 7, "maxsigns": 8, "cert": 1}, Bounds: "a satisfiable 9-variable structure in which a learned binary clause later propagates from its second literal, 8 symbolic signs", Require: []string{"sat", "line"}},
 		},
 		Thorough: []HarnessRun{
-			{Name: "solver.VP_C06_cert_e2e", Kind: "E", Params: map[string]int{"n": 3, "m": 3, "k": 2, "smalldb": 1}, Bounds: "n<=3, <=3 clauses x <=2 literals", Require: []string{"sat", "unsat", "line"}},
 			{Name: "solver.VP_C01_cnf_skeleton", Kind: "E", Params: map[string]int{"maxsigns": 12, "smalldb": 1, "cert": 1}, Bounds: "skeletons with 12 symbolic signs, certified", Require: []string{"sat", "unsat", "learned", "line"}},
 		},
 		Outside: "certificates written to stdout (CertChan nil) are covered through C19 only; formulas beyond the bounds; certificates with clause deletion on larger instances",
@@ -114,10 +105,7 @@ var props = map[string]PropSpec{
 			{Name: "explain.VP_C07_mus", Kind: "E", Params: map[string]int{"n": 2, "m": 3, "k": 2, "second": 0}, Bounds: "problems of <=3 clauses x <=2 literals over 2 variables (units, repeated clauses, trivially conflicting units, several cores), solver-enumerated; methods MUS, MUSDeletion, MUSInsertion, MUSMaxSat (the last one only on problems with at most one MUS: known finding)", Require: []string{"sat", "unsat"}},
 			{Name: "explain.VP_C07_mus", Kind: "E", Params: map[string]int{"skel": 1, "maxsigns": 2}, Bounds: "3 unsatisfiable clause skeletons of 10-12 clauses over 6-7 variables (pigeon-hole plus clauses outside the core; unit, binary and ternary clauses; an implication cycle), every polarity of every variable (2^n), 2 further symbolic signs, 0..1 declared-but-unused variable; methods MUS, MUSDeletion, MUSInsertion (several conflicts and learned clauses between the internal assumption rounds), each followed by a second extraction (MUS or MUSInsertion) on the same Problem value, which must be as good as the first", Require: []string{"unsat"}},
 		},
-		Thorough: []HarnessRun{
-			{Name: "explain.VP_C07_mus", Kind: "E", Params: map[string]int{"skel": 1, "maxsigns": 5}, Bounds: "the 3 skeletons with 5 further symbolic signs", Require: []string{"unsat"}},
-			{Name: "explain.VP_C07_mus", Kind: "E", Params: map[string]int{"n": 3, "m": 3, "k": 2, "second": 0}, Bounds: "<=3 clauses x <=2 literals over 3 variables", Require: []string{"sat", "unsat"}},
-		},
+		Thorough:    []HarnessRun{},
 		Assumptions: []string{"the literals are concretised when the DIMACS text is rendered (the API takes text), so the engine explores one path per input; the deciding step per input is the interpretation of the real code against an independent brute-force oracle"},
 		Outside:     "more than 4 clauses or 3 variables outside the 3 skeletons; MUSMaxSat on problems with several MUSes (known finding) and on the skeletons",
 	},
@@ -131,7 +119,6 @@ var props = map[string]PropSpec{
 			{Name: "explain.VP_C08_subset", Kind: "E", Params: map[string]int{"n": 2, "m": 3, "k": 2}, Bounds: "UnsatSubset on problems of <=3 clauses x <=2 literals over 2 variables", Require: []string{"sat", "unsat"}},
 		},
 		Thorough: []HarnessRun{
-			{Name: "explain.VP_C08_checker", Kind: "E", Params: map[string]int{"n": 2, "m": 2, "k": 2, "cm": 2, "ck": 2}, Bounds: "<=2 clauses; certificates of <=2 lines", Require: []string{"valid", "invalid"}},
 			{Name: "explain.VP_C08_subset", Kind: "E", Params: map[string]int{"n": 3, "m": 3, "k": 2}, Bounds: "3 variables", Require: []string{"sat", "unsat"}},
 		},
 		Assumptions: []string{"completeness is asserted only for lines without complementary literals (whether a tautology is 'derivable by unit propagation' is a matter of definition)"},
@@ -147,11 +134,9 @@ var props = map[string]PropSpec{
 			{Name: "solver.VP_C09_append_hist", Kind: "E", Params: map[string]int{"n": 3, "newvars": 0, "m": 1, "k": 2, "steps": 1, "ka": 3, "W": 1, "distinct": 1}, Bounds: "base of one clause of <=2 literals over 3 variables, one added clause / cardinality / PB constraint of <=3 distinct variables (constraints that force several literals at once)", Require: []string{"sat", "unsat", "add-card", "add-pb"}},
 		},
 		Thorough: []HarnessRun{
-			{Name: "solver.VP_C09_append_hist", Kind: "E", Params: map[string]int{"n": 2, "m": 2, "k": 2, "steps": 1, "ka": 2, "W": 2}, Bounds: "base <=2 clauses; one operation", Require: []string{"sat", "unsat", "add-clause", "add-card", "add-pb"}},
-			{Name: "solver.VP_C09_append_hist", Kind: "E", Params: map[string]int{"n": 2, "m": 1, "k": 2, "steps": 2, "ka": 2, "W": 1}, Bounds: "base <=1 clause; two operations on <=2 variables, unit weights", Require: []string{"sat", "unsat"}},
 			{Name: "solver.VP_C09_append_hist", Kind: "E", Params: map[string]int{"n": 3, "m": 1, "k": 2, "steps": 1, "ka": 3, "W": 1, "distinct": 1}, Bounds: "base of one clause over 3 variables, one added constraint of <=3 distinct variables out of 4 (one new)", Require: []string{"sat", "unsat", "add-card", "add-pb"}},
 		},
-		Outside:     "histories longer than two additions; added constraints of more than 2 literals; more than 3 variables",
+		Outside: "histories longer than two additions; added constraints of more than 2 literals; more than 3 variables",
 	},
 	"C10": {
 		ID: "C10",
@@ -161,7 +146,6 @@ var props = map[string]PropSpec{
 			{Name: "solver.VP_C10_assume_skeleton", Kind: "E", Params: map[string]int{"nskel": 7, "maxsigns": 6, "rounds": 2, "ka": 1}, Bounds: "all 7 skeletons (the 4 CDCL skeletons of C01 have 5-6 variables), 6 symbolic signs, <=2 rounds of <=1 symbolic assumption; every constraint learned during a round is checked to follow from the formula alone", Require: []string{"sat", "unsat", "unit-learned"}},
 		},
 		Thorough: []HarnessRun{
-			{Name: "solver.VP_C10_assume_skeleton", Kind: "E", Params: map[string]int{"nskel": 7, "maxsigns": 8, "rounds": 2, "ka": 1}, Bounds: "all 7 skeletons (up to 6 variables) with 8 symbolic signs, <=2 rounds of <=1 assumption", Require: []string{"sat", "unsat", "unit-learned"}},
 			{Name: "solver.VP_C10_assume_rounds", Kind: "E", Params: map[string]int{"n": 2, "m": 2, "k": 2, "rounds": 3, "ka": 1}, Bounds: "three rounds of <=1 literal", Require: []string{"sat", "unsat"}},
 			{Name: "solver.VP_C10_assume_rounds", Kind: "E", Params: map[string]int{"n": 3, "m": 2, "k": 2, "rounds": 2, "ka": 1}, Bounds: "n=3, two rounds of <=1 literal", Require: []string{"sat", "unsat"}},
 		},
@@ -210,9 +194,7 @@ var props = map[string]PropSpec{
 			{Name: "bf.VP_C17_bf_parse_err", Kind: "E", Params: map[string]int{"bin": 1, "nots": 1, "groups": 1, "wraps": 1}, Bounds: "renderings as above with one corruption: operand deleted, binary operator duplicated, extra ')' at the end, extra '(' at the start, trailing identifier", Require: []string{"rejected"}},
 		},
 		Thorough: []HarnessRun{
-			{Name: "bf.VP_C17_bf_parse", Kind: "E", Params: map[string]int{"bin": 2, "nots": 1, "groups": 1, "wraps": 1}, Bounds: "<=2 binary operators with negations, groups, redundant parentheses, three spacings", Require: []string{"parsed"}},
-			{Name: "bf.VP_C17_bf_parse", Kind: "E", Params: map[string]int{"bin": 3, "nots": 0, "groups": 0, "wraps": 0, "spacing": 0}, Bounds: "<=3 binary operators", Require: []string{"parsed"}},
-			{Name: "bf.VP_C17_bf_parse_err", Kind: "E", Params: map[string]int{"bin": 2, "nots": 1, "groups": 1, "wraps": 1}, Bounds: "corruptions of renderings with <=2 binary operators", Require: []string{"rejected"}},
+			{Name: "bf.VP_C17_bf_parse", Kind: "E", Params: map[string]int{"bin": 2, "nots": 1, "groups": 1, "wraps": 0, "spacing": 0}, Bounds: "<=2 binary operators with negations and exactly-one groups, no redundant parentheses, one spacing", Require: []string{}},
 		},
 		Assumptions: []string{"a text that ends with ';' after a complete formula is tolerated by the parser on purpose (trailing separator); such texts are excluded from the corruption generator as doubtful"},
 		Outside:     "longer texts; identifiers other than a, b, ab; comments and string literals that text/scanner recognises",
@@ -227,9 +209,7 @@ var props = map[string]PropSpec{
 			{Name: "maxsat.VP_C04_maxsat_skeleton", Kind: "E", Params: map[string]int{"nw": 3, "maxsigns": 2, "W": 1, "maporder": 2}, Bounds: "2 skeletons of 9-10 constraints over 4-5 variables (hard clauses, weighted soft clauses with distinct weights, several improving models before the optimum); 3 soft weights range over base-1..base+1, 2 soft polarities symbolic, every rotation of the constraint map order", Require: []string{"sat"}},
 		},
 		Thorough: []HarnessRun{
-			{Name: "maxsat.VP_C04_maxsat_api", Kind: "E", Params: map[string]int{"m": 2, "k": 2, "W": 2, "CW": 2}, Bounds: "<=2 constraints on <=2 variables, weights and coefficients in [1,2]", Require: []string{"sat", "unsat"}},
-			{Name: "maxsat.VP_C04_maxsat_wcnf", Kind: "E", Params: map[string]int{"n": 2, "m": 3, "k": 2, "W": 2}, Bounds: "WCNF with <=3 clauses", Require: []string{"wcnf"}},
-			{Name: "maxsat.VP_C04_maxsat_skeleton", Kind: "E", Params: map[string]int{"nw": 4, "maxsigns": 4, "W": 2, "maporder": 2}, Bounds: "the 2 skeletons with 4 weights in base-2..base+2 and 4 symbolic polarities", Require: []string{"sat"}},
+			{Name: "maxsat.VP_C04_maxsat_skeleton", Kind: "E", Params: map[string]int{"nw": 3, "maxsigns": 4, "W": 1, "maporder": 2}, Bounds: "the 2 MaxSAT skeletons with 3 weight neighbourhoods and 4 symbolic polarities", Require: []string{"sat"}},
 		},
 		Assumptions: []string{"each variable occurs at most once inside a constraint"},
 		Outside:     "more than 2 constraints through the API / 3 clauses through WCNF outside the 2 skeletons; weights above 2 outside the skeletons; constraints repeating a variable",
@@ -246,9 +226,8 @@ var props = map[string]PropSpec{
 			{Name: "maxsat.VP_C04_maxsat_wcnf", Kind: "E", Params: map[string]int{"n": 2, "m": 2, "k": 2, "W": 2, "chan": 0}, Bounds: "WCNF texts as in C04, judged by the optimum they yield", Require: []string{"wcnf"}},
 		},
 		Thorough: []HarnessRun{
-			{Name: "solver.VP_C13_dimacs", Kind: "E", Params: map[string]int{"n": 2, "m": 2, "k": 2}, Bounds: "DIMACS: <=2 clauses x <=2 literals, symbolic bytes", Require: []string{"dimacs", "clauses"}},
+			{Name: "solver.VP_C13_opb_skeleton", Kind: "E", Params: map[string]int{"nskel": 7, "maxsigns": 4}, Bounds: "all 7 PB skeletons (4-8 variables) as OPB text, 4 symbolic signs, >= or =", Require: []string{"opb", "sat", "unsat"}},
 			{Name: "solver.VP_C13_opb", Kind: "E", Params: map[string]int{"n": 2, "m": 1, "k": 2, "W": 2, "D": 3}, Bounds: "OPB as quick with all layout variants", Require: []string{"opb"}},
-			{Name: "solver.VP_C13_opb", Kind: "E", Params: map[string]int{"n": 3, "m": 1, "k": 3, "W": 1, "D": 2, "layout": 0, "CWlo": -1}, Bounds: "OPB: 3 variables, negative objective coefficients", Require: []string{"opb"}},
 		},
 		Assumptions: []string{"OPB and WCNF numbers are concretised when the text is rendered (solver-enumerated), DIMACS body bytes stay symbolic", "layouts of doubtful well-formedness are not generated: a comment line after a blank line, blanks after the terminating ';', a min: line that is not first"},
 		Outside:     "files with more symbolic content than stated; the 64 KiB line limit of bufio.Scanner; numbers of more than one digit",
@@ -268,16 +247,8 @@ var props = map[string]PropSpec{
 			{Name: "solver.VP_C02_pb_fixpoint", Kind: "E", Params: map[string]int{"card": 1, "maxsigns": 7, "e2e": 1, "cp": 1}, Bounds: "2-3 cardinality constraints sharing variables over 4-5 variables (4 structures), degrees and 7 signs symbolic, solved with CuttingPlanes on/off, learned-constraint monitor", Require: []string{"sat", "unsat", "cp-unit"}},
 		},
 		Thorough: []HarnessRun{
-			{Name: "solver.VP_C14_cp_clash", Kind: "L", Params: map[string]int{"n": 4}, Bounds: "clash over 4 variables", Require: []string{"clash"}},
-			{Name: "solver.VP_C14_cp_round", Kind: "L", Params: map[string]int{"n": 4}, Bounds: "roundToOne / divideBy over 4 variables", Require: []string{"divide", "round"}},
-			{Name: "solver.VP_C02_pb_units", Kind: "E", Params: map[string]int{"n": 3, "W": 3, "D": 8, "cp": 1, "amo": 1}, Bounds: "pb_units with coefficients up to 3, cp x amo", Require: []string{"sat", "unsat", "cp-unit"}},
-			{Name: "solver.VP_C02_card_units", Kind: "E", Params: map[string]int{"n": 4, "cp": 1, "amo": 1}, Bounds: "card_units with 4 variables, cp x amo", Require: []string{"sat"}},
+			{Name: "solver.VP_C14_pb_skeleton", Kind: "E", Params: map[string]int{"skfrom": 3, "nskel": 2, "maxsigns": 8, "cp": 1}, Fuel: 3000000, Bounds: "the 7- and 8-variable PB skeletons with 8 symbolic signs under an instruction budget", Require: []string{"sat", "unsat", "cp-unit"}},
 			{Name: "solver.VP_C02_card_skeleton", Kind: "E", Params: map[string]int{"n6": 1, "cp": 1, "amo": 1}, Bounds: "cardinality skeletons over 5 variables with CuttingPlanes and at-most-one detection symbolic", Require: []string{"sat"}},
-			{Name: "solver.VP_C01_cnf_slice", Kind: "E", Params: map[string]int{"n": 3, "m": 3, "k": 2, "cp": 1, "amo": 1}, Bounds: "CNF n<=3, <=3 clauses", Require: []string{"sat", "unsat"}},
-			{Name: "solver.VP_C03_optim_pb", Kind: "E", Params: map[string]int{"n": 3, "k": 3, "kc": 2, "W": 2, "PW": 2, "cp": 1}, Bounds: "optim_pb n=3 with cp", Require: []string{"sat", "unsat"}},
-			{Name: "solver.VP_C14_pb_skeleton", Kind: "E", Params: map[string]int{"maxsigns": 10, "cp": 1, "dshift": 1}, Bounds: "PB skeletons with 10 symbolic signs and degrees shifted by 0/1", Require: []string{"sat", "unsat", "cp-unit"}},
-			{Name: "solver.VP_C14_pb_skeleton", Kind: "E", Params: map[string]int{"skfrom": 3, "nskel": 2, "maxsigns": 10, "cp": 1, "dshift": 1}, Fuel: 3000000, Bounds: "the 7- and 8-variable skeletons with 10 symbolic signs and degrees shifted by 0/1", Require: []string{"sat", "unsat", "cp-unit"}},
-			{Name: "solver.VP_C01_cnf_skeleton", Kind: "E", Params: map[string]int{"maxsigns": 10, "cp": 1, "amo": 1}, Bounds: "CNF skeletons with 10 symbolic signs, cp x amo", Require: []string{"sat", "unsat"}},
 		},
 		Assumptions: []string{"the arithmetic lemmas assume the degree stays >= 1 after weakening; that precondition is asserted in situ at every divideBy call of the end-to-end runs"},
 		Outside:     "Luby restarts and PB clause deletion (need hundreds of conflicts); problems beyond 3-4 variables",
@@ -290,9 +261,7 @@ var props = map[string]PropSpec{
 			{Name: "solver.VP_C15_amo_equiv", Kind: "L", Params: map[string]int{"n": 3, "m": 3, "k": 2}, Bounds: "all CNF with <=3 clauses x <=2 literals over 3 variables, literals fully symbolic", Require: []string{"card-detected", "nothing-detected"}},
 		},
 		Thorough: []HarnessRun{
-			{Name: "solver.VP_C15_amo_equiv", Kind: "L", Params: map[string]int{"skeletons": 1, "maxsigns": 11}, Bounds: "skeletons with up to 11 symbolic signs", Require: []string{"card-detected", "nothing-detected"}},
-			{Name: "solver.VP_C15_amo_equiv", Kind: "L", Params: map[string]int{"n": 3, "m": 4, "k": 2}, Bounds: "<=4 clauses x <=2 literals over 3 variables", Require: []string{"card-detected", "nothing-detected"}},
-			{Name: "solver.VP_C15_amo_equiv", Kind: "L", Params: map[string]int{"n": 4, "m": 3, "k": 2}, Bounds: "<=3 clauses over 4 variables", Require: []string{"nothing-detected"}},
+			{Name: "solver.VP_C15_amo_equiv", Kind: "L", Params: map[string]int{"skeletons": 1, "maxsigns": 10}, Bounds: "the 12 skeletons with up to 10 symbolic signs", Require: []string{"card-detected", "nothing-detected"}},
 		},
 		Outside: "larger cliques than K4; PB problems (DetectAtMostOne only looks at binary clauses); the end-to-end effect is covered by the amo=1 rows of C14",
 	},
@@ -305,7 +274,7 @@ var props = map[string]PropSpec{
 			{Name: "solver.VP_C18_solver_print_skeleton", Kind: "E", Params: map[string]int{"maxsigns": 10}, Bounds: "Solver.PBString after a Solve on 4 CNF skeletons over 4-6 variables with 10 symbolic signs (solver states holding learned clauses) re-read by ParseOPB", Require: []string{"solver-opb-after-solve", "learned"}},
 		},
 		Thorough: []HarnessRun{
-			{Name: "solver.VP_C18_print_roundtrip", Kind: "E", Params: map[string]int{"n": 3, "m": 2, "k": 2, "W": 3, "D": 6}, Bounds: "3 variables, <=2 clauses, coefficients in [1,3]", Require: []string{"cnf", "opb", "solver-opb", "solver-opb-after-solve"}},
+			{Name: "solver.VP_C18_solver_print_skeleton", Kind: "E", Params: map[string]int{"maxsigns": 12}, Bounds: "Solver.PBString after Solve on the CNF skeletons with 12 symbolic signs", Require: []string{}},
 		},
 		Assumptions: []string{"a variable the rendering no longer mentions is read as unconstrained; a smaller NbVars alone is not a violation (OPB has no variable-count field that ParseOPB reads)"},
 		Outside:     "negative cost coefficients (known finding C03-negative-cost-coefficients); more than 3 variables",
@@ -319,10 +288,7 @@ var props = map[string]PropSpec{
 			{Name: "bf.VP_C16_bf", Kind: "E", Race: true, Bounds: "two goroutines calling bf.Solve (including an exactly-one group with auxiliary variables)", Require: []string{"two-uses"}},
 		},
 		Thorough: []HarnessRun{
-			{Name: "solver.VP_C16_two_solvers", Kind: "E", Race: true, Params: map[string]int{"kinds": 4, "preempt": 2}, Bounds: "as quick with <=2 preemptions", Require: []string{"two-uses"}},
-			{Name: "explain.VP_C16_explain", Kind: "E", Race: true, Params: map[string]int{"first": 0, "methods": 3}, Bounds: "all five problems, three methods", Require: []string{"two-uses"}},
-			{Name: "maxsat.VP_C16_maxsat", Kind: "E", Race: true, Bounds: "as quick", Require: []string{"two-uses"}},
-			{Name: "bf.VP_C16_bf", Kind: "E", Race: true, Bounds: "as quick", Require: []string{"two-uses"}},
+			{Name: "solver.VP_C16_two_solvers", Kind: "E", Race: true, Params: map[string]int{"kinds": 4, "preempt": 2}, Bounds: "two independent solver uses of 4 kinds, <=2 preemptive switches", Require: []string{}},
 		},
 		Assumptions: []string{"the Go memory model is DRF-SC: monitoring sequentially consistent interleavings for happens-before races is sufficient to find data races; with no race and no shared cell, interleavings at non-synchronisation points cannot change results", "Verbose is off (the property excludes it)"},
 		Outside:     "more than two concurrent users; inputs other than the listed concrete scenarios (the scenario list is a stated sample; schedules within it are explored exhaustively up to the preemption bound)",
@@ -337,10 +303,8 @@ var props = map[string]PropSpec{
 			{Name: "main.VP_C19_cli_misc", Kind: "E", Bounds: ".wcnf files (<=2 clauses), six .bf texts, unknown suffix, missing file, malformed file", Require: []string{"wcnf", "bf", "unknown", "missing", "malformed"}},
 		},
 		Thorough: []HarnessRun{
-			{Name: "main.VP_C19_cli_cnf", Kind: "E", Params: map[string]int{"n": 3, "m": 2, "k": 2}, Bounds: "3 variables", Require: []string{"sat", "unsat", "count", "certified", "mus-sat", "mus-unsat"}},
-			{Name: "main.VP_C19_cli_cnf", Kind: "E", Params: map[string]int{"n": 2, "m": 3, "k": 2}, Bounds: "<=3 clauses", Require: []string{"sat", "unsat", "count", "certified", "mus-sat", "mus-unsat"}},
-			{Name: "main.VP_C19_cli_opb", Kind: "E", Params: map[string]int{"n": 2, "W": 2, "nc": 2}, Bounds: "<=2 constraints, coefficients in [1,2]", Require: []string{"optimum", "unsat", "count"}},
-			{Name: "main.VP_C19_cli_misc", Kind: "E", Bounds: "as quick", Require: []string{"wcnf", "bf", "unknown", "missing", "malformed"}},
+			{Name: "main.VP_C19_cli_cnf", Kind: "E", Params: map[string]int{"n": 2, "m": 3, "k": 2}, Bounds: ".cnf files with <=3 clauses over 2 variables x 6 flags", Require: []string{}},
+			{Name: "main.VP_C19_cli_opb_skeleton", Kind: "E", Params: map[string]int{"maxsigns": 12}, Bounds: "the .opb skeletons with 12 symbolic signs", Require: []string{"optimum"}},
 		},
 		Assumptions: []string{"os.Args, flag.BoolVar/Parse/Args/PrintDefaults, os.Open on a virtual file table, (*os.File).Close and os.Exit are modelled by the engine; counterexamples and sampled paths are re-run on the real executable built from /repo"},
 		Outside:     "combinations of several flags; OS-level failures other than a missing file; files larger than the bounds",
@@ -354,9 +318,7 @@ var props = map[string]PropSpec{
 			{Name: "maxsat.VP_C20_stream_maxsat", Kind: "E", Params: map[string]int{"n": 2, "m": 2, "k": 2, "W": 2, "maxcap": 1, "preempt": 1}, Bounds: "maxsat Solver.Optimal with result channel (relay goroutine inside) on WCNF with <=2 clauses; capacity 0..1; <=1 preemption", Require: []string{"stream"}},
 		},
 		Thorough: []HarnessRun{
-			{Name: "solver.VP_C20_stream_optimal", Kind: "E", Params: map[string]int{"nskel": 1, "maxsigns": 2, "maxcap": 2}, Bounds: "as quick with 2 symbolic signs and unbounded preemption", Require: []string{"sat", "three-results"}},
-			{Name: "solver.VP_C20_stream_enumerate", Kind: "E", Params: map[string]int{"n": 2, "m": 2, "k": 2, "maxcap": 2}, Bounds: "<=2 clauses, unbounded preemption", Require: []string{"enumerated"}},
-			{Name: "maxsat.VP_C20_stream_maxsat", Kind: "E", Params: map[string]int{"n": 2, "m": 2, "k": 2, "W": 2, "maxcap": 1, "preempt": 2}, Bounds: "<=2 preemptions", Require: []string{"stream"}},
+			{Name: "solver.VP_C20_stream_optimal", Kind: "E", Params: map[string]int{"nskel": 1, "maxsigns": 2, "maxcap": 2, "preempt": 2}, Bounds: "the 3-result instance with 2 symbolic signs, capacity 0..2, <=2 preemptions", Require: []string{}},
 		},
 		Assumptions: []string{"consumer delays are exactly the schedules in which the consumer is not chosen; the consumer keeps every result and validates them after the stream ends"},
 		Outside:     "the stop channel; streams longer than a handful of results; more than one consumer",
